@@ -115,7 +115,8 @@ class DPTensorFastGradientAdaptiveClipping(DPTensorFastGradientClipping):
 
     def _is_distributed(self):
 
-        return isinstance(self.module, (DPDDP, DDP))
+        # self.module is the GradSampleModule; the (DP)DDP wrapper, if any, is the module it wraps
+        return isinstance(getattr(self.module, "_module", self.module), (DPDDP, DDP))
 
     def _update_clip_and_noise(self, per_sample_norms):
 
@@ -131,12 +132,13 @@ class DPTensorFastGradientAdaptiveClipping(DPTensorFastGradientClipping):
         if self._is_distributed():
             # pair the two variables in one tensor to perform only one all_reduce call
             global_unclipped_and_batch = torch.tensor(
-                [local_unclipped_num, local_batch_size]
+                [local_unclipped_num, local_batch_size],
+                device=per_sample_norms.device,
             )
             torch.distributed.all_reduce(
                 global_unclipped_and_batch, op=torch.distributed.ReduceOp.SUM
             )
-            unclipped_num = global_unclipped_and_batch[0].item()
+            unclipped_num = global_unclipped_and_batch[0]
             batch_size = global_unclipped_and_batch[1].item()
         else:
             unclipped_num = local_unclipped_num
@@ -145,10 +147,12 @@ class DPTensorFastGradientAdaptiveClipping(DPTensorFastGradientClipping):
         unclipped_num_std = (
             batch_size / 20.0
         )  # use heuristic from [ATMR'22, https://arxiv.org/pdf/1905.03871]
-        unclipped_num = (
-            unclipped_num
-            + torch.normal(mean=0.0, std=unclipped_num_std, size=(1,)).item()
-        )
+        unclipped_num_noise = torch.normal(mean=0.0, std=unclipped_num_std, size=(1,))
+        if self._is_distributed():
+            # every worker must use the same noisy count: share the draw of rank 0
+            unclipped_num_noise = unclipped_num_noise.to(per_sample_norms.device)
+            torch.distributed.broadcast(unclipped_num_noise, src=0)
+        unclipped_num = unclipped_num + unclipped_num_noise.item()
         unclipped_frac = unclipped_num / batch_size
 
         new_max_grad_norm = current_max_norm * torch.exp(
